@@ -332,7 +332,10 @@ SITE_OF = {
 }
 
 
-def check_trace(tr, drv, max_frames=80, mask=None, detail=False):
+INV2_NAMES = ['wfx2', 'sched', 'next', 'svc2', 'ren']
+
+
+def check_trace(tr, drv, max_frames=80, mask=None, detail=False, inv_mask=None):
     """-> dict(frames, mismatch = first divergence that touches the mask (all fields when mask is None), other = number of
     frames that diverged only outside the mask)"""
     cfg = tr.cfg
@@ -385,6 +388,19 @@ def check_trace(tr, drv, max_frames=80, mask=None, detail=False):
                 return False
         return True
 
+    # the T2 invariants of the stage-2 engine (Inv/AllRun2.invs2_b, extracted) on the implementation's own snapshots
+    def invs(state):
+        v = drv.ask('m38', sx.dump([ecfg, state]))
+        if v[0] != 'M':
+            return None
+        o = parse(v[1])
+        return o if isinstance(o, list) else None
+    res['inv_frames'] = 0
+    b0 = invs(enc_state(prev, cfg, nxt, now if isinstance(now, int) else 0, cyc))
+    if b0 is None or any(x != 1 for x in b0):
+        bad = [INV2_NAMES[i] for i, x in enumerate(b0 or []) if x != 1]
+        res['mismatch'] = {'frame': 0, 'what': 'the initial snapshot does not satisfy the hypotheses of the stage-2 T2 theorems', 'invariants': bad, 'got': b0}
+        return res
     for k, f in enumerate(tr.frames[:max_frames]):
         crossed = False
         while ci < len(ends) and ends[ci]['frames'] == k:
@@ -431,6 +447,16 @@ def check_trace(tr, drv, max_frames=80, mask=None, detail=False):
             res['other'] += 1
         res['frames'] += 1
         prev, nxt, now = f['snap'], f['next'], f['next_date']
+        if isinstance(now, int):
+            bk = invs(enc_state(prev, cfg, nxt, now, cyc))
+            if bk is None or any(x != 1 for x in bk):
+                bad = [INV2_NAMES[i] for i, x in enumerate(bk or []) if x != 1]
+                if inv_mask is None or any(b in inv_mask for b in bad) or not bad:
+                    res['mismatch'] = {'frame': k + 1, 'what': 'a stage-2 T2 invariant does not hold on the real snapshot', 'invariants': bad, 'label': f['label']}
+                    return res
+                res['inv_other'] = res.get('inv_other', 0) + 1
+            else:
+                res['inv_frames'] += 1
     # the calls that returned after the last compared event (normally: the end of the run)
     if res['mismatch'] is None and res['frames'] == len(tr.frames):
         while ci < len(ends) and ends[ci]['frames'] == len(tr.frames):
